@@ -65,16 +65,83 @@ def find_grad_validators(index) -> dict:
                         work.append(n)
         return out
 
+    from .cfg import cfg_of
+    from .guards import feasible
+    from .index import FunctionInfo
+
+    ATOMS = {"requires_grad": "R", "is_leaf": "L", "retains_grad": "G"}
+
+    def inline_predicates(test, fi):
+        """The test with calls of one-expression repository predicates replaced by what they return (parameters substituted)."""
+        import copy
+
+        class T(ast.NodeTransformer):
+            def visit_Call(self, n):
+                self.generic_visit(n)
+                callee = None
+                if isinstance(n.func, ast.Name):
+                    callee = index.resolve_name(fi.module, n.func.id)
+                elif isinstance(n.func, ast.Attribute) and isinstance(n.func.value, ast.Name):
+                    owner = fi.cls if n.func.value.id in ("self", "cls") else index.resolve_name(fi.module, n.func.value.id)
+                    if owner is not None and hasattr(owner, "lookup"):
+                        r_ = owner.lookup(n.func.attr)
+                        callee = r_[1] if r_ else None
+                if isinstance(callee, FunctionInfo):
+                    rets = returned_exprs(callee.node)
+                    ps = [a.arg for a in callee.node.args.args if a.arg not in ("self", "cls")]
+                    if len(rets) == 1 and len(ps) == len(n.args) and not n.keywords:
+                        m = {p_: a_ for p_, a_ in zip(ps, n.args)}
+
+                        class S(ast.NodeTransformer):
+                            def visit_Name(self, x):
+                                return copy.deepcopy(m[x.id]) if x.id in m and isinstance(x.ctx, ast.Load) else x
+
+                        return S().visit(copy.deepcopy(rets[0]))
+                return n
+
+        return T().visit(copy.deepcopy(test))
+
+    def strength(fi):
+        """'full' when every way of returning normally has established requires_grad and (is_leaf or retains_grad) of the first
+        parameter — read off the tests taken along each path, whatever their nesting and polarity; 'weak' otherwise."""
+        ps = [a.arg for a in fi.node.args.args if a.arg not in ("self", "cls")]
+        if not ps:
+            return "weak"
+        subject = ps[0]
+
+        def classify(t):
+            if isinstance(t, ast.Attribute) and isinstance(t.value, ast.Name) and t.value.id == subject and t.attr in ATOMS:
+                return (ATOMS[t.attr], True)
+            return None
+
+        cfg = cfg_of(fi.node)
+        for path in cfg.acyclic_paths():
+            guards = []
+            for a, b in zip(path, path[1:]):
+                if a.kind == "test" and hasattr(a.ast, "test"):
+                    lbl = next((l for m_, l in cfg.succ[a] if m_ is b), None)
+                    if lbl in ("True", "False"):
+                        guards.append((inline_predicates(a.ast.test, fi), lbl == "True"))
+            f = feasible(guards, classify, extra_vars=("R", "L", "G"))
+            if f is None:
+                return "weak"
+            if any(not (a_["R"] and (a_["L"] or a_["G"])) for a_ in f):
+                return "weak"
+        return "full"
+
     found = {}
     for fi in index.all_functions("torchjd.autojac"):
         if fi.parent is not None:
             continue
-        for n in ast.walk(fi.node):
-            if isinstance(n, ast.If) and any(isinstance(x, ast.Raise) and "ValueError" in ast.unparse(x) for b in n.body for x in ast.walk(b)):
-                a = attrs_of(n.test, fi)
-                if a & {"is_leaf", "retains_grad", "requires_grad"}:
-                    full = "requires_grad" in a and ("is_leaf" in a or "retains_grad" in a)
-                    found[fi.qualname] = "full" if full else "weak"
+        raises = [x for x in ast.walk(fi.node) if isinstance(x, ast.Raise) and "ValueError" in ast.unparse(x)]
+        if not raises:
+            continue
+        tests = [n.test for n in ast.walk(fi.node) if isinstance(n, (ast.If, ast.IfExp, ast.While))]
+        a = set()
+        for t in tests:
+            a |= attrs_of(t, fi)
+        if a & {"is_leaf", "retains_grad", "requires_grad"}:
+            found[fi.qualname] = strength(fi)
     return found
 
 
